@@ -37,6 +37,9 @@ var xUnits = []xUnit{
 	{Name: "tr_WriteInt16", Dir: "tars/protocol/codec", Func: "Buffer.WriteInt16", Writer: codecWriter},
 	{Name: "tr_WriteInt32", Dir: "tars/protocol/codec", Func: "Buffer.WriteInt32", Writer: codecWriter},
 	{Name: "tr_WriteInt64", Dir: "tars/protocol/codec", Func: "Buffer.WriteInt64", Writer: codecWriter},
+	// the end of endpoint.Parse: from the flag variables to the Endpoint value (without its cache key)
+	{Name: "tr_Parse_build", Dir: "tars/util/endpoint", Func: "Parse", From: "isTcp := int32(0)", To: "e := Endpoint{",
+		Outs: []string{"e"}, After: []string{"e.Key = e.String()", "return e"}},
 }
 
 type xPkg struct {
